@@ -327,7 +327,7 @@ class JobContext(object):
             "harness": self.harness, "params": self.params, "bounds": self.bounds, "covers": self.covers,
             "notes": self.notes, "obligations": self.n_obl, "trivial": self.n_trivial, "discharged": self.n_discharged,
             "inconclusive": self.inconclusive, "violations": self.violations, "known_hits": self.known_hits,
-            "spurious": self.spurious, "samples": self.samples, "distinct": len(self.distinct),
+            "spurious": self.spurious, "samples": self.samples, "distinct": len(st.distinct_queries), "distinct_obligations": len(self.distinct),
             "paths": dict(self.paths), "path_reasons": dict(self.path_reasons), "validated": self.validated,
             "validation_mismatch": self.validation_mismatch, "witness": self.witness, "exc_paths": dict(self.exc_paths),
             "solver_calls": st.solver_calls, "solver_time": round(st.solver_time, 3), "max_query": round(st.max_query, 3),
@@ -488,7 +488,7 @@ def finish(prop, tier, seed, results, meta, wall, extra_coverage=None, extra_err
         if "crash" in r:
             errors.append("job %s %s crashed: %s" % (hname, r.get("params"), r["crash"]))
             continue
-        for k in ("obligations", "trivial", "discharged", "distinct", "validated", "solver_calls", "steps", "unknown"):
+        for k in ("obligations", "trivial", "discharged", "distinct", "distinct_obligations", "validated", "solver_calls", "steps", "unknown"):
             tot[k] += r[k]
             per_harness[hname][k] += r[k]
         tot["solver_time"] += r["solver_time"]
@@ -539,9 +539,12 @@ def finish(prop, tier, seed, results, meta, wall, extra_coverage=None, extra_err
         "explanation": meta.get("explanation", "bounded symbolic execution of the real source (psx), every obligation decided by z3"),
         "evaluations": int(tot["solver_calls"]),
         "distinct_nontrivial": int(tot["distinct"]),
-        "rule": "one obligation = (path condition AND NOT check) for one labelled check on one explored path; non-trivial = the "
-                "assertion does not fold to a constant; distinct = different (label, assertion term, path depth)",
+        "rule": "evaluations = solver queries (path-feasibility conditions, obligation negations, slice-canonicalisation and bound lemmas); "
+                "non-trivial = the formula does not fold to a constant before it reaches the solver; distinct = different (formula hash, number of "
+                "path constraints), counted per job and summed. An obligation = (path condition AND NOT check) for one labelled check on one path; "
+                "obligations whose check folds to a constant on its path were decided by the feasibility queries that selected the path",
         "obligations": int(tot["obligations"]),
+        "distinct_nontrivial_obligations": int(tot["distinct_obligations"]),
         "discharged": int(tot["discharged"]),
         "trivially_true": int(tot["trivial"]),
         "paths": dict(paths),
